@@ -60,12 +60,18 @@ class VTuple(V):
 
 
 class _Tracked:
-    """Mixin for mutable containers that can be switched to delta-tracking mode inside loop bodies."""
+    """Mixin for mutable containers that can be switched to delta-tracking mode inside loop bodies.
+
+    While a loop body is explored, every container reachable from the live frames is *tracked*: writes go to a delta
+    that starts empty, reads see the state before the loop and are recorded.  A container that is both read and
+    written by the body is rejected after the exploration (the foreach-additive rule needs the body to be independent
+    of the accumulator)."""
     tracked = False
+    read_in_loop = False
 
     def _check_read(self):
         if self.tracked:
-            raise OutOfSubset("loop body reads an object it also mutates (needs a sidecar invariant)")
+            self.read_in_loop = True
 
 
 class VSet(V, _Tracked):
@@ -84,20 +90,20 @@ class VSet(V, _Tracked):
         self.owned = owned
 
     def has(self, *ts):
-        self._check_read()
-        return self._pred(*ts)
+        return self.pred(*ts)
 
     @property
     def pred(self):
         self._check_read()
-        return self._pred
+        return self._saved if self.tracked else self._pred
 
     def add_pred(self, p):
         old = self._pred
         self._pred = lambda *ts: z3.Or(old(*ts), p(*ts))
 
     def set_pred(self, p):
-        self._check_read()
+        if self.tracked:
+            raise OutOfSubset("a loop body removes from / overwrites a container (needs a sidecar invariant)")
         self._pred = p
 
 
@@ -136,12 +142,20 @@ class VNx(V, _Tracked):
         self.gattrs = dict(gattrs or {})
 
     def N(self, x):
-        self._check_read()
-        return self._N(x)
+        return self.curN(x)
 
     def E(self, a, b):
+        return self.curE(a, b)
+
+    @property
+    def curN(self):
         self._check_read()
-        return self._E(a, b)
+        return self._saved[0] if self.tracked else self._N
+
+    @property
+    def curE(self):
+        self._check_read()
+        return self._saved[1] if self.tracked else self._E
 
     def add_N(self, p):
         old = self._N
@@ -211,3 +225,36 @@ class VOpaque(V):
     """A value the generator does not interpret (strings built by f-strings, exceptions, ...)."""
     def __init__(self, what=""):
         self.what = what
+
+
+def freeze(v):
+    """Snapshot of a mutable container as it is *now* (values derived from a container must not see later mutations;
+    reading a container that a loop body is accumulating into is rejected here, at the time of the read)."""
+    if isinstance(v, VNx):
+        if getattr(v, "frozen", False):
+            return v
+        r = VNx(v.directed, v.curN, v.curE, owned=False, nattrs=dict(v.nattrs), gattrs=v.gattrs)
+        r.frozen = True
+        return r
+    if isinstance(v, VSet):
+        if getattr(v, "frozen", False):
+            return v
+        r = VSet(v.pred, arity=v.arity, kind=v.kind, owned=False)
+        for k in ("nx_view", "seq_view", "known_empty"):
+            if hasattr(v, k):
+                setattr(r, k, getattr(v, k))
+        r.frozen = True
+        return r
+    if isinstance(v, VGraph):
+        if getattr(v, "frozen", False):
+            return v
+        r = VGraph(freeze(v.directed), freeze(v.undirected), owned=False)
+        r.frozen = True
+        return r
+    if isinstance(v, VDict):
+        v._check_read()
+        r = VDict(v.dom, v.val, owned=False)
+        return r
+    if isinstance(v, VTuple):
+        return VTuple([freeze(i) for i in v.items])
+    return v
